@@ -84,7 +84,14 @@ def run_property(pid, spec, tier, prog_loader):
     try:
         ctx = prog_loader(tier)
         for rule in spec["rules"]:
-            r = rule(ctx)
+            try:
+                r = rule(ctx)
+            except Exception as e:  # fail closed, but per rule: the other rules still report
+                if os.environ.get("VERIF_DEBUG"):
+                    traceback.print_exc()
+                nm = rule.__name__.split("_")[0].upper()
+                r = RuleResult(nm, "(rule could not be evaluated)", floor=0)
+                r.unrec("<anchors>", "rule evaluation", "?", "%s: %s — an anchored function or construct of this rule is missing or has an unexpected shape" % (type(e).__name__, e))
             if isinstance(r, RuleResult):
                 results.append(r)
             else:
